@@ -18,14 +18,14 @@ CONFIG = {
         level="fault_enumeration",
         tiers=dict(
             quick=dict(runs=56, opts=dict(faultspec=dict(mode="sample", count=36, interrupts=3, tail_prob=0.2, tail_max=1), real_frac=0.15, real_count=10, pairs=0, limit=300)),
-            thorough=dict(runs=960, opts=dict(faultspec=dict(mode="all", interrupts=40, tail_prob=0.25, tail_max=3), slices=4, real_frac=0.08, real_count=16, pairs=1, limit=900)),
+            thorough=dict(runs=960, opts=dict(faultspec=dict(mode="all", interrupts=16, tail_prob=0.1, tail_max=2), slices=8, real_frac=0.08, real_count=16, pairs=1, limit=900)),
         ),
-        det=dict(quick=8, thorough=32),
+        det=dict(quick=8, thorough=8),
         extra_stages=[
             dict(
                 name="multi-session histories with faults (crash recovery across sessions)",
                 engine="store",
-                runs=dict(quick=1000, thorough=100000),
+                runs=dict(quick=1000, thorough=60000),
                 opts=dict(config="c38h"),
             )
         ],
@@ -35,7 +35,7 @@ CONFIG = {
         level="exploration",
         tiers=dict(
             quick=dict(runs=1200, opts=dict(real_frac=0.02, limit=300)),
-            thorough=dict(runs=80000, opts=dict(real_frac=0.01, limit=600)),
+            thorough=dict(runs=250000, opts=dict(real_frac=0.006, limit=600)),
         ),
         det=dict(quick=32, thorough=128),
     ),
@@ -62,7 +62,7 @@ CONFIG = {
         level="exploration",
         tiers=dict(
             quick=dict(runs=3000, opts=dict()),
-            thorough=dict(runs=300000, opts=dict()),
+            thorough=dict(runs=800000, opts=dict()),
         ),
         det=dict(quick=32, thorough=256),
     ),
@@ -71,7 +71,7 @@ CONFIG = {
         level="exploration",
         tiers=dict(
             quick=dict(runs=1600, opts=dict()),
-            thorough=dict(runs=400000, opts=dict()),
+            thorough=dict(runs=1500000, opts=dict()),
         ),
         det=dict(quick=32, thorough=256),
     ),
